@@ -177,18 +177,34 @@ def one_graph(args):
             with open(os.path.join(real[d], 'Manifest'), 'wb') as f:
                 f.write(fm.manifest_bytes([fm.make_entry('DATA', 'f', b'data%d' % d, ['SHA1'])]))
             unreg = path[d]
+        # a file symlink NAMED Manifest (referenced by nobody) onto the second file system: in one-file-system
+        # mode the scan may not read it any more than the walks may record it
+        mflink = None
+        if shm and len(ids) > 1 and not unreg and rng.random() < 0.25:
+            d = rng.choice(ids[1:])
+            lp = os.path.join(real[d], 'Manifest')
+            if not os.path.lexists(lp) and not under_hidden(d) and not (
+                    ignored and (path[d] == ignored[2] or path[d].startswith(ignored[2] + '/'))):
+                with open(os.path.join(shm, 'FManifest'), 'wb') as f:
+                    f.write(b'IGNORE whatever\n')
+                os.symlink(os.path.join(shm, 'FManifest'), lp)
+                mflink = (d, max(alld) + 2)
         base = {'dirs': alld, 'edges': [list(e) for e in sorted(eff_edges)], 'start': 1, 'foreign': foreign,
-                'meta': {'seed': seed, 'idx': idx, 'links': links, 'ignored': ignored, 'beyond': beyond, 'flink': flink, 'hidden': hidden, 'paths': path, 'unreg': unreg}}
+                'meta': {'seed': seed, 'idx': idx, 'links': links, 'ignored': ignored, 'beyond': beyond, 'flink': flink, 'hidden': hidden, 'paths': path, 'unreg': unreg, 'mflink': mflink}}
         old = signal.signal(signal.SIGALRM, _alarm)
         try:
             for op in ('verify', 'update', 'scan'):
-                for onefs in ((False, True) if (foreign or flink) else (False,)):
+                for onefs in ((False, True) if (foreign or flink or mflink) else (False,)):
                     obs, exc = run_op(gem, root, op, onefs)
                     rec = dict(base, op=op, onefs=onefs, obs=obs, exc=exc)
+                    if mflink:
+                        rec['dirs'] = rec['dirs'] + [mflink[1]]
+                        rec['edges'] = rec['edges'] + [[mflink[0], mflink[1]]]
+                        rec['foreign'] = rec['foreign'] + [mflink[1]]
                     if flink and op in ('verify', 'update'):
-                        rec['dirs'] = base['dirs'] + [flink[1]]
-                        rec['edges'] = base['edges'] + [[flink[0], flink[1]]]
-                        rec['foreign'] = base['foreign'] + [flink[1]]
+                        rec['dirs'] = rec['dirs'] + [flink[1]]
+                        rec['edges'] = rec['edges'] + [[flink[0], flink[1]]]
+                        rec['foreign'] = rec['foreign'] + [flink[1]]
                     recs.append(rec)
         finally:
             signal.alarm(0)
